@@ -200,6 +200,10 @@ pub fn run(cfg: &RunCfg) -> Report {
     );
     if let Some(r) = &cfg.replay {
         let r = r.get("case").unwrap_or(r);
+        if r["role"].as_str() == Some("import-site") {
+            import_sites(&mut rep);
+            return rep;
+        }
         if r["role"].as_str() == Some("use-site") {
             use_sites(&[r["name"].as_str().unwrap_or("type").to_string()], &mut rep);
             return rep;
@@ -426,8 +430,64 @@ pub fn run(cfg: &RunCfg) -> Report {
         let mut names: Vec<String> = KEYWORDS.iter().map(|k| k.to_string()).collect();
         names.extend(KEYWORDS.iter().take(12).map(|k| format!("{k}-x")));
         use_sites(&names, &mut rep);
+        import_sites(&mut rep);
     }
     rep
+}
+
+/// an imported type is named in the `use` line of the importing module exactly as its item is spelled
+fn import_sites(rep: &mut Report) {
+    let names = ["Cause-radio-network", "Sha-256digest", "Self", "Station-Type", "X-509", "Ab-c-d", "A1-b2", "My-UUID", "Type", "Box", "Option-x"];
+    for (k, n) in names.iter().enumerate() {
+        let srcs = vec![
+            format!("Prov-Mod DEFINITIONS AUTOMATIC TAGS ::= BEGIN\n{n} ::= INTEGER (0..7)\nEND\n"),
+            format!("User-Mod DEFINITIONS AUTOMATIC TAGS ::= BEGIN\nIMPORTS {n} FROM Prov-Mod;\nHolder{k} ::= SEQUENCE {{ f {n} }}\nEND\n"),
+        ];
+        rep.evaluations += 1;
+        rep.count("import-site");
+        let case = json!({"role": "import-site", "name": n, "body": 0});
+        match compile_rasn(&srcs) {
+            Outcome::Ok { generated, .. } => match crate::modset::module_items(&generated) {
+                Ok(mods) => {
+                    let prov: Vec<String> = mods.iter().find(|(m, _)| m == "provmod").map(|(_, it)| it.iter().map(|x| x.0.clone()).collect()).unwrap_or_default();
+                    let user = mods.iter().find(|(m, _)| m == "usermod").map(|(_, it)| it.clone()).unwrap_or_default();
+                    let mut named = Vec::new();
+                    for (id, text) in &user {
+                        if id == "use" {
+                            let t: String = text.chars().filter(|c| !c.is_whitespace()).collect();
+                            if let Some(rest) = t.strip_prefix("usesuper::") {
+                                if let Some((_, syms)) = rest.trim_end_matches(';').split_once("::") {
+                                    named.extend(syms.trim_start_matches('{').trim_end_matches('}').split(',').filter(|x| !x.is_empty()).map(String::from));
+                                }
+                            }
+                        }
+                    }
+                    if named.is_empty() {
+                        rep.unsat("", false, json!({"why": format!("the module importing `{n}` has no use line for it"), "case": case}));
+                    }
+                    for sym in named.iter().filter(|x| *x != "*") {
+                        if !prov.contains(sym) {
+                            rep.unsat("", false, json!({"why": format!("the use line names `{sym}` for the imported type `{n}`; the providing module declares {:?}", prov.iter().filter(|p| *p != "use" && *p != "extern").collect::<Vec<_>>()), "case": case}));
+                        }
+                    }
+                    // and the field mentions the same item
+                    if let Some((_, text)) = user.iter().find(|(id, _)| id == &format!("Holder{k}")) {
+                        let sq: String = text.chars().filter(|c| !c.is_whitespace()).collect();
+                        let fty: String = sq.split("pubf:").nth(1).unwrap_or("").chars().take_while(|c| c.is_alphanumeric() || *c == '_').collect();
+                        if !prov.contains(&fty) {
+                            rep.unsat("", false, json!({"why": format!("the component of imported type `{n}` is typed `{fty}`; the providing module declares {:?}", prov.iter().filter(|p| *p != "use" && *p != "extern").collect::<Vec<_>>()), "case": case}));
+                        }
+                    }
+                }
+                Err(e) => rep.unsat("", false, json!({"why": format!("generated text is not a sequence of Rust items: {e}"), "case": case})),
+            },
+            Outcome::Err(e) => {
+                rep.count("import-site:compile-err");
+                rep.sample(json!({"compile_err": e, "name": n}));
+            }
+            Outcome::Panic(p) => rep.unsat("", false, json!({"why": format!("panic: {p}"), "case": case})),
+        }
+    }
 }
 
 /// Where a generated identifier is *used* it must be spelled as where it is declared: the variant named in a
